@@ -64,7 +64,7 @@ def diff_signature(base, alt):
 def match_dict(sigt, tags, side):
     sig, why, faulty, other = sigt
     return {"signature": sig, "faulty": PL.kind_tag(faulty), "other_side": PL.kind_tag(other),
-            "site": faulty.get("site", []), "tags": list(tags), "faulty_is": side}
+            "site": faulty.get("site", []), "tags": list(tags), "faulty_is": side, "msg": (faulty.get("msg") or "")[:80]}
 
 
 def load_open_tags(prop):
